@@ -1,7 +1,9 @@
 import WebAuthnModel.Model.Prog
+import WebAuthnModel.Model.Url
 /-
   Origin / RP ID matching (misc.go `originMatches`, relying_party.go `NewRelyingParty`).
-  Host extraction (`url.Parse(..).Hostname()`) is an oracle; the label walk is the repository's own code.
+  Host extraction (`url.Parse(..).Hostname()`) is the Lean model of net/url (`Model/Url.lean`, compared with net/url on every run);
+  the label walk is the repository's own code.
 -/
 namespace WebAuthn
 
@@ -30,18 +32,18 @@ def labelWalkLoop : Nat → Bytes → Bytes → Bool
       | some rest => labelWalkLoop f rest rp
       | none => false
 
-def originMatches (clientOrigin rpOrigin : Bytes) : Prog Bool := do
-  match ← Prog.query (.urlHost clientOrigin) with
-  | .bytes ch =>
-    match ← Prog.query (.urlHost rpOrigin) with
-    | .bytes rh => pure (labelWalk ch rh)
-    | _ => pure false
-  | _ => pure false
+def originMatches (clientOrigin rpOrigin : Bytes) : Prog Bool :=
+  match Url.hostOf clientOrigin with
+  | some ch =>
+    match Url.hostOf rpOrigin with
+    | some rh => pure (labelWalk ch rh)
+    | none => pure false
+  | none => pure false
 
 /-- `NewRelyingParty`: the RP ID is the host name of the origin; if the origin does not parse, the origin itself. -/
-def rpId (origin : Bytes) : Prog Bytes := do
-  match ← Prog.query (.urlHost origin) with
-  | .bytes h => pure h
-  | _ => pure origin
+def rpId (origin : Bytes) : Prog Bytes :=
+  match Url.hostOf origin with
+  | some h => pure h
+  | none => pure origin
 
 end WebAuthn
